@@ -27,13 +27,13 @@ type BadEv struct {
 }
 
 type H struct {
-	Ctx    bool   `json:"ctx,omitempty"`
-	Async  bool   `json:"async,omitempty"`
-	Once   bool   `json:"once,omitempty"`
-	Seq    bool   `json:"seq,omitempty"`
-	Filter string `json:"filter,omitempty"` // "", even, none
-	Panic  string `json:"panic,omitempty"`  // "", always, odd
-	Cancels bool  `json:"cancels,omitempty"` // synchronous only: cancels the publish context when it runs (async handlers dispatched before it may or may not run)
+	Ctx     bool   `json:"ctx,omitempty"`
+	Async   bool   `json:"async,omitempty"`
+	Once    bool   `json:"once,omitempty"`
+	Seq     bool   `json:"seq,omitempty"`
+	Filter  string `json:"filter,omitempty"`  // "", even, none
+	Panic   string `json:"panic,omitempty"`   // "", always, odd
+	Cancels bool   `json:"cancels,omitempty"` // synchronous only: cancels the publish context when it runs (async handlers dispatched before it may or may not run)
 }
 
 type Pub struct {
@@ -41,7 +41,7 @@ type Pub struct {
 	Expired   bool   `json:"expired,omitempty"` // published with a context whose deadline has already passed
 	UseCtx    bool   `json:"usectx,omitempty"`
 	Any       bool   `json:"any,omitempty"` // published through the static type any (Publish[any])
-	Persist   string `json:"persist"` // ok reject bad (unencodable event) slow (the append takes 3 ms and succeeds)
+	Persist   string `json:"persist"`       // ok reject bad (unencodable event) slow (the append takes 3 ms and succeeds)
 }
 
 type Case struct {
@@ -66,6 +66,8 @@ type truth struct {
 	panics       atomic.Int32
 	appends      int
 	appendFails  int
+	perMu        sync.Mutex
+	perEvent     map[int]int // event id -> handler bodies entered for it
 }
 
 func accepts(f string, id int) bool {
@@ -104,6 +106,12 @@ func workload(c *Case, obs eventbus.Observability, ctxCheck func(ctx context.Con
 	body := func(hi int, ctx context.Context, id int) {
 		h := c.Handlers[hi]
 		tr.entered.Add(1)
+		tr.perMu.Lock()
+		if tr.perEvent == nil {
+			tr.perEvent = map[int]int{}
+		}
+		tr.perEvent[id]++
+		tr.perMu.Unlock()
 		if h.Cancels && !h.Async {
 			if f, ok := cancels.Load(id); ok {
 				f.(context.CancelFunc)()
@@ -239,9 +247,10 @@ type recEvent struct {
 }
 
 type recorder struct {
-	mu   sync.Mutex
-	next int
-	evs  []recEvent
+	mu       sync.Mutex
+	next     int
+	evs      []recEvent
+	pubEvent map[int]int // publish token -> id of the published event
 }
 
 func (r *recorder) add(e recEvent) {
@@ -262,9 +271,22 @@ func tokOf(ctx context.Context, kind string) int {
 	return v
 }
 
-func (r *recorder) OnPublishStart(ctx context.Context, _ string, _ any) context.Context {
+func (r *recorder) OnPublishStart(ctx context.Context, _ string, event any) context.Context {
 	t := r.fresh()
 	r.add(recEvent{kind: "pstart", tok: t})
+	id := -1
+	switch e := event.(type) {
+	case Ev:
+		id = e.ID
+	case BadEv:
+		id = e.ID
+	}
+	r.mu.Lock()
+	if r.pubEvent == nil {
+		r.pubEvent = map[int]int{}
+	}
+	r.pubEvent[t] = id
+	r.mu.Unlock()
 	return context.WithValue(ctx, tokKey{"publish"}, t)
 }
 func (r *recorder) OnPublishComplete(ctx context.Context, _ string) {
@@ -338,6 +360,32 @@ func RunRecording(c *Case) *vkit.Outcome {
 				errs[e.kind]++
 			}
 		}
+	}
+	// every handler start belongs to the publish of the event it handled: per
+	// event, as many handler starts carry its publish token as handler
+	// bodies were entered for it
+	startsPerEvent := map[int]int{}
+	for _, e := range rec.evs {
+		if e.kind == "hstart" {
+			startsPerEvent[rec.pubEvent[e.ptok]]++
+		}
+	}
+	tr.perMu.Lock()
+	for id, n := range tr.perEvent {
+		if startsPerEvent[id] != n {
+			o.Failf("", "event %d was handled by %d handler invocations, but %d handler-start callbacks received a context descending from that event's publish start (handler contexts must descend from their own publish context)", id, n, startsPerEvent[id])
+			break
+		}
+	}
+	for id, n := range startsPerEvent {
+		if tr.perEvent[id] != n && len(o.Viol) == 0 {
+			o.Failf("", "%d handler-start callbacks carried the publish context of event %d, which was handled by %d invocations", n, id, tr.perEvent[id])
+			break
+		}
+	}
+	tr.perMu.Unlock()
+	if len(o.Viol) > 0 {
+		return o
 	}
 	for tok, st := range starts {
 		if ended[tok] != 1 {
